@@ -1,7 +1,7 @@
 #!/bin/bash
 # tools/run_all.sh <tier> [ids...] : run checks sequentially, print one summary line each
 T=${1:-quick}; shift
-IDS=${@:-C01 C03 C04 C05 C06 C07 C08 C09 C10 C11 C12 C13 C14 C15 C16 C18 C19}
+IDS=${@:-C01 C02 C03 C04 C05 C06 C07 C08 C09 C10 C11 C12 C13 C14 C15 C16 C17 C18 C19}
 for c in $IDS; do
   s=$(date +%s)
   ./check $c --tier $T > /tmp/runall.$c.log 2>&1; code=$?
